@@ -53,3 +53,53 @@ package graphalg
 //@   ensures [empty] result != nil && (forall j int :: !member(*result, j))
 //@   ensures [fresh] fresh(result)
 //@   assigns nothing
+
+// ---------------------------------------------------------------------
+// Reverse (C18, C19): in-place reversal.
+
+//@ func Reverse
+//@   model int
+//@   ensures [same-slice] region(result) == region(xs) && offset(result) == offset(xs) && len(result) == len(xs)
+//@   ensures [reversed]   forall k in 0..len(xs) :: xs[k] == old(xs[len(xs)-1-k])
+//@   loop 1 (i) invariant 0 <= i && j == len(xs) - 1 - i && i <= j + 1 && (forall k in 0..i :: xs[k] == old(xs[len(xs)-1-k]) && xs[len(xs)-1-k] == old(xs[k])) && (forall k in i..j+1 :: xs[k] == old(xs[k]))
+//@   assigns xs[*]
+
+// ---------------------------------------------------------------------
+// Dominators (C19).
+// anc(idom, x, a): a is on the idom-chain starting at x (x itself included).
+//@ spec anc(idom []int, x int, a int) bool = x == a || (0 <= x && x < len(idom) && anc(idom, idom[x], a))
+
+// Well-formed flow graph: predecessor lists name valid nodes.
+//@ spec wfBi(g graph.BiGraph) bool = g.NumNodes() >= 0 && (forall b in 0..g.NumNodes(), k in 0..len(g.In(b)) :: 0 <= g.In(b)[k] && g.In(b)[k] < g.NumNodes())
+
+// What DomFrontier needs of IDom's result: ranges, the root has none,
+// and for every reachable node b the immediate dominator of b lies on the
+// idom-chain of every reachable predecessor of b. (A consequence of "idom[b]
+// dominates b"; that IDom computes dominators is NOT proved, see DESIGN C19.)
+//@ spec isIDom(g graph.BiGraph, root int, idom []int) bool =
+//@     len(idom) == g.NumNodes() && (forall x in 0..len(idom) :: -1 <= idom[x] && idom[x] < len(idom)) && idom[root] == -1 &&
+//@     (forall b in 0..len(idom), k in 0..len(g.In(b)) :: (b == root || idom[b] != -1) && (g.In(b)[k] == root || idom[g.In(b)[k]] != -1) ==> anc(idom, g.In(b)[k], idom[b]))
+
+//@ assume func IDom
+//@   model int
+//@   trusted Cooper-Harvey-Kennedy fixpoint: that it computes immediate dominators is not verified
+//@   requires wfBi(g) && 0 <= root && root < g.NumNodes()
+//@   ensures isIDom(g, root, result) && fresh(result)
+//@   assigns nothing
+
+//@ func DomFrontier
+//@   model int
+//@   requires wfBi(g) && 0 <= root && root < g.NumNodes() && (isnil(idom) || isIDom(g, root, idom))
+//@   ensures [len]     len(result) == g.NumNodes()
+//@   ensures [non-nil] forall x in 0..len(result) :: !isnil(result[x])
+//@   ensures [fresh]   fresh(result)
+//@   loop 1 (b) preserves idom[*]
+//@   loop 1 (b) invariant len(df) == g.NumNodes() && fresh(df) && (forall x in 0..len(df) :: isnil(df[x]) || (fresh(df[x]) && region(df[x]) != region(idom)))
+//@   loop 2 (pred) preserves idom[*]
+//@   loop 2 (pred) invariant len(df) == g.NumNodes() && fresh(df) && (forall x in 0..len(df) :: isnil(df[x]) || (fresh(df[x]) && region(df[x]) != region(idom)))
+//@   loop 3 preserves idom[*]
+//@   loop 3 invariant len(df) == g.NumNodes() && fresh(df) && (forall x in 0..len(df) :: isnil(df[x]) || (fresh(df[x]) && region(df[x]) != region(idom))) && anc(idom, runner, bdom) && (runner == bdom || (0 <= runner && runner < len(idom)))
+//@   loop 4 (rdf) invariant true
+//@   loop 5 (i) modifies nothing
+//@   loop 5 (i) invariant len(df) == g.NumNodes() && fresh(df) && (forall x in 0..i :: !isnil(df[x]))
+//@   assigns nothing
